@@ -19,6 +19,8 @@ RANorm(o, s) ==
 RAPre(o, s) ==
   /\ (o.op \in {"car", "cdr", "list-ref", "list-set", "list-ref/update"} => s[o.v] # <<>>)
   /\ (o.op \in {"cadr", "cddr"} => Len(s[o.v]) >= 2)
+  /\ (o.op \in {"list-ref", "list-set", "list-ref/update"} => o.x < Len(s[o.v]))
+  /\ (o.op = "list-tail" => o.x <= Len(s[o.v]))
   /\ (o.op = "map2" => Len(s[o.v]) = Len(s[o.w]))
   /\ (o.op \in {"append", "append3"} => Len(s[o.v]) + Len(s[o.w]) <= 60)
 RAEval(o, s, M) ==
